@@ -22,10 +22,12 @@ request grammar (one line, 12 tokens):
             igraph a=N data=rows i,j  weights=vertex attribute  attr=edge values
     ops     comma list of copy ucopy pcopy saveload saveload_gml loadspatial
             loadspatial_gml loadgeo loadgeo_gml edgelist, the statements of a history on
-            the live object  setw=a_b_k setwnone setattr=a_b_c_k delattr setadj=a_b_c save
-            regraph  (arguments: formula_w / formula_v / formula_a below), or -
-answer: N|n_links|density|adjacency|graph edges|weights|total|mean|link attribute|
-        node_weight_nsi stored on the embedded graph object      or raise:<Exception>
+            the live object  setw=a_b_k setwnone setattr[2|3]=a_b_c_k delattr[2|3] setadj=a_b_c
+            save regraph  (arguments: formula_w / formula_v / formula_a below), or -
+            (setattr / setattr2 / setattr3 act on the names link_weights / corr / aux_1)
+answer: N|n_links|density|adjacency|graph edges|weights|total|mean|link_attribute(link_weights)|
+        node_weight_nsi stored on the embedded graph object|link_attribute(corr)|
+        link_attribute(aux_1)|graph.es.attributes() in order      or raise:<Exception>
 """
 import contextlib
 import io
@@ -40,7 +42,9 @@ from fractions import Fraction
 import numpy as np
 
 ATTR = "link_weights"
-ATTR2 = "corr"      # a second link attribute (oracle only; no underscore: survives GML)
+ATTR2 = "corr"      # a second link attribute (no underscore: survives GML)
+ATTR3 = "aux_1"     # a third one, created (and deleted) only by statements of a history
+ATTRS = {"": ATTR, "2": ATTR2, "3": ATTR3}      # op suffix -> name
 OBS = ["N", "n_links", "link_density", "adjacency", "graph", "node_weights",
        "total_node_weight", "mean_node_weight", "link_attribute"]
 
@@ -134,9 +138,14 @@ class Case:
         self.edtype = "int"       # dtype of an ndarray edge list
         self.autofmt = False      # save / Load with fileformat=None (detected from the extension)
         self.poke = False         # overwrite the caller's arrays afterwards and observe again
+        self.sub = None           # subclass / factory construction (see subclass_cases)
+        self.sp = {}              # its parameters
+        self.model = True         # False: oracle only (values that are not dyadic)
         self.__dict__.update(kw)
 
     def label(self):
+        if self.sub:
+            return f"{self.sub}:{self.form}"
         return f"{self.ctor}:{self.form}" + ("+zeros" if self.zeros else "")
 
     def describe(self):
@@ -145,6 +154,8 @@ class Case:
         d["V"] = None if self.V is None else [[float(x) for x in r] for r in self.V]
         d["A"] = self.A
         d["entries"] = self.entries
+        d["sp"] = {k: str(v) for k, v in self.sp.items()}
+        d["edges"] = [list(e) for e in self.edges]
         return d
 
 
@@ -177,6 +188,12 @@ def request(c):
                 acc[(i, j)] = acc.get((i, j), 0) + v
             ents = [(i, j, v) for (i, j), v in sorted(acc.items())]
         data = show_mat(ents)
+    elif c.ctor in ("climate", "coupled", "res"):
+        a, b = c.N, show_rat(c.thr)
+        data = show_mat(c.sp["S"], show_rat)
+    elif c.ctor == "recurrence":
+        a, b = c.N, show_rat(c.thr)
+        data = show_rats(c.sp["series"])
     elif c.ctor == "edges":
         a, b = ("none" if c.n_nodes is None else c.n_nodes), 0
         data = show_mat(c.edges)
@@ -186,7 +203,7 @@ def request(c):
     w = "none" if c.w is None else show_rats(c.w)
     if c.V is None:
         attr = "none"
-    elif c.ctor == "igraph":
+    elif c.ctor == "igraph" and not c.sub:
         attr = show_rats([c.V[i][j] for i, j in c.edges])
     else:
         attr = show_mat(c.V, show_rat)
@@ -266,6 +283,11 @@ class Impl:
         self.caller.append(w)
         adt = {"int": int, "bool": bool, "int8": np.int8, "uint8": np.uint8, "int64": np.int64,
                "f32": np.float32, "f64": np.float64}[c.adtype]
+        if c.sub:
+            net = self.construct_sub(c, w)
+            if w is not None and c.sub not in ("recurrence", "factory", "model"):
+                net.node_weights = w      # (RecurrenceNetwork takes node_weights itself)
+            return self.set_attrs(net, c)
         if c.ctor == "igraph":
             g = self.igraph.Graph(n=c.N, edges=[tuple(e) for e in c.edges],
                                   directed=c.directed)
@@ -304,11 +326,76 @@ class Impl:
         if c.cls != "net" and w is not None:
             net.node_weights = w          # the constructors of these classes take no weights
         self.caller += [kw.get("adjacency"), kw.get("edge_list")]
+        return self.set_attrs(net, c)
+
+    def set_attrs(self, net, c):
         if c.V is not None:
             m1, m2 = self.matrix(c, c.V), self.matrix(c, second_attr(c.V))
             net.set_link_attribute(ATTR, m1)
             net.set_link_attribute(ATTR2, m2)
             self.caller += [m1, m2]
+        return net
+
+    def construct_sub(self, c, w):
+        """subclasses whose constructors pass through Network.__init__ / the adjacency setter,
+        the documented factories and Network.Model"""
+        import random
+        p = c.sp
+        wt = [None, "surface", "irrigation"][c.wtype]
+        fm = lambda M, dt: np.array([[float(x) for x in r] for r in M], dtype=dt)  # noqa
+        if c.sub in ("climate", "coupled"):
+            from pyunicorn.climate import ClimateNetwork, CoupledClimateNetwork
+            S = fm(p["S"], p["sdtype"])
+            self.caller.append(S)
+            if c.sub == "climate":
+                return ClimateNetwork(self.grid(c), S, threshold=float(p["thr"]),
+                                      directed=c.directed, node_weight_type=wt, silence_level=3)
+            n1, t = p["n1"], np.arange(2.)
+            la, lo = np.array(c.lats, dtype=float), np.arange(len(c.lats), dtype=float)
+            g1 = self.GeoGrid(t, la[:n1], lo[:n1], silence_level=3)
+            g2 = self.GeoGrid(t, la[n1:], lo[n1:], silence_level=3)
+            return CoupledClimateNetwork(g1, g2, S, threshold=float(p["thr"]), directed=c.directed,
+                                         node_weight_type=wt, silence_level=3)
+        if c.sub == "recurrence":
+            from pyunicorn.timeseries import RecurrenceNetwork
+            x = np.array([float(v) for v in p["series"]], dtype=p["sdtype"])
+            self.caller.append(x)
+            kw = {} if w is None else {"node_weights": np.asarray(w, dtype=float)}
+            return RecurrenceNetwork(x, threshold=float(p["thr"]), metric=p["metric"],
+                                     silence_level=3, **kw)
+        if c.sub == "res":
+            from pyunicorn.core import ResNetwork
+            R = fm(p["S"], p["sdtype"])
+            self.caller.append(R)
+            return ResNetwork(R, grid=self.grid(c), node_weight_type=wt, silence_level=3)
+        if c.sub == "model":
+            random.seed(p["seed"])
+            np.random.seed(p["seed"])
+            return self.Network.Model(p["name"], **p["kw"])
+        # documented factories: what is not documented is read off the object (the paths that
+        # follow and the derived quantities must still agree with it)
+        mod, name = p["name"].split(".")
+        import importlib
+        cls = None
+        for m in ("pyunicorn.core", "pyunicorn.climate", "pyunicorn.timeseries"):
+            cls = cls or getattr(importlib.import_module(m), mod, None)
+        net = getattr(cls, name)()
+        A = np.asarray(net.adjacency)
+        c.N = int(A.shape[0])
+        c.directed = bool(net.directed)
+        if p.get("edges") is None:
+            c.edges = [(int(i), int(j)) for i, j in zip(*np.nonzero(A)) if c.directed or i < j]
+        c.A = adjacency_of(c.N, c.directed, c.edges)
+        c.shape = (c.N, c.N)
+        if c.w is None:
+            c.w = [exact(x) for x in net.node_weights]
+        if ATTR in net.graph.es.attributes():
+            c.V = [[exact(x) for x in r] for r in net.link_attribute(ATTR)]
+            net.set_link_attribute(ATTR2, self.matrix(c, second_attr(c.V)))
+            c.V, V = None, c.V          # (set_attrs must not assign it again)
+            self._factory_V = V
+        else:
+            self._factory_V = None
         return net
 
     def poke(self):
@@ -341,17 +428,24 @@ class Impl:
     def apply(self, net, op, c):
         if op == "copy":
             return net.copy()
+        if op == "rethr":       # the subclass re-runs Network.__init__ on the live object
+            if c.sub == "recurrence":
+                net.set_fixed_threshold(float(c.sp["thr2"]))
+            else:
+                net.set_threshold(float(c.sp["thr2"]))
+            return net
         if op.startswith("setw="):
             net.node_weights = self.weights(c, formula_w(net.N, *op_args(op)))
             return net
         if op == "setwnone":
             net.node_weights = None
             return net
-        if op.startswith("setattr="):
-            net.set_link_attribute(ATTR, self.matrix(c, formula_v(net.N, net.directed, *op_args(op))))
+        if op.startswith("setattr"):
+            name = ATTRS[op.split("=")[0][len("setattr"):]]
+            net.set_link_attribute(name, self.matrix(c, formula_v(net.N, net.directed, *op_args(op))))
             return net
-        if op == "delattr":
-            net.del_link_attribute(ATTR)
+        if op.startswith("delattr"):
+            net.del_link_attribute(ATTRS[op[len("delattr"):]])
             return net
         if op.startswith("setadj="):
             A = np.array(formula_a(net.N, net.directed, *op_args(op)))
@@ -394,6 +488,8 @@ class Impl:
             with contextlib.redirect_stdout(io.StringIO()), warnings.catch_warnings():
                 warnings.simplefilter("ignore")     # igraph: "there is already an 'id' attribute"
                 net = self.construct(c)
+                if c.sub == "factory":
+                    c.V = self._factory_V
                 for op in c.ops:
                     net = self.apply(net, op, c)
                 o = observe(net)
@@ -430,7 +526,15 @@ def observe(net):
         o["link_attribute2"] = [[exact(x) for x in row] for row in net.link_attribute(ATTR2)]
     except KeyError:
         o["link_attribute2"] = None
-    o["link_attribute_names"] = sorted(net.graph.es.attribute_names())
+    try:
+        o["link_attribute3"] = [[exact(x) for x in row] for row in net.link_attribute(ATTR3)]
+    except KeyError:
+        o["link_attribute3"] = None
+    g = getattr(net, "grid", None)
+    o["grid"] = None if g is None or not hasattr(g, "grid") else \
+        {k: [exact(x) for x in np.asarray(v, dtype=float).ravel()] for k, v in sorted(g.grid().items())}
+    o["link_attribute_names"] = list(net.graph.es.attributes())     # igraph keeps insertion order
+    o["find_link_attribute"] = [bool(net.find_link_attribute(a)) for a in (ATTR, ATTR2, ATTR3)]
     # what the embedded graph object carries (written by save, read by FromIGraph / Load)
     if "node_weight_nsi" in net.graph.vs.attribute_names():
         o["gvw"] = [exact(x) for x in net.graph.vs["node_weight_nsi"]]
@@ -446,7 +550,10 @@ def show_obs(o):
         "None" if o["node_weights"] is None else show_rats(o["node_weights"]),
         show_rat(o["total_node_weight"]), show_rat(o["mean_node_weight"]),
         "none" if o["link_attribute"] is None else show_mat(o["link_attribute"], show_rat),
-        "none" if o["gvw"] is None else show_rats(o["gvw"])])
+        "none" if o["gvw"] is None else show_rats(o["gvw"]),
+        "none" if o["link_attribute2"] is None else show_mat(o["link_attribute2"], show_rat),
+        "none" if o["link_attribute3"] is None else show_mat(o["link_attribute3"], show_rat),
+        ",".join(o["link_attribute_names"]) or "-"])
 
 
 MODEL_OPS = {"saveload:gml": "saveload_gml", "loadspatial:gml": "loadspatial_gml",
@@ -455,7 +562,22 @@ MODEL_OPS = {"saveload:gml": "saveload_gml", "loadspatial:gml": "loadspatial_gml
 
 def model_request(c):
     ops = [MODEL_OPS.get(op, op.split(":")[0]) for op in c.ops]    # save:<fmt> -> save
-    c2 = Case(**{**c.__dict__, "ops": ops})
+    kw = {}
+    if c.sub:
+        # a subclass constructor is GeoNetwork.__init__ / Network.__init__ on the matrix it
+        # derived (CoupledClimateNetwork runs Network.__init__ once more on the result: theorem
+        # derived_constructors); re-thresholding re-runs it on the live object, which forgets
+        # everything that happened before
+        # the Lean model derives the matrix itself (thresholdMat / recurrenceMat / resMat)
+        kw = dict(ctor=c.sub if c.sub in ("climate", "coupled", "recurrence", "res") else "dense",
+                  form="list", shape=(c.N, c.N), thr=c.sp.get("thr", 0))
+        if "rethr" in ops:
+            k = max(i for i, op in enumerate(ops) if op == "rethr")
+            ops = ops[k + 1:]
+            kw.update(A=c.sp["A2"], w=None, V=None, thr=c.sp["thr2"])
+            if c.sub == "coupled":
+                kw["ctor"] = "climate"      # set_threshold is ClimateNetwork's
+    c2 = Case(**{**c.__dict__, "ops": ops, **kw})
     return request(c2)
 
 
@@ -472,28 +594,36 @@ def expected(c):
     pairs = set((i, j) for i, j in c.edges)
     if any(i == j or not (0 <= i < N and 0 <= j < N) for i, j in pairs):
         return None
-    w = c.w
-    if c.cls == "geo" and w is None:
-        cl = np.cos(np.array(c.lats, dtype=np.float32) * np.pi / 180)
-        wf = [np.ones(N), cl, np.square(cl)][c.wtype]
-        w = [exact(x) for x in wf]
-    if w is None:
-        w = [Fraction(1)] * N
-    w = list(w)
+    def default_w():
+        if c.cls == "geo":
+            cl = np.cos(np.array(c.lats, dtype=np.float32) * np.pi / 180)
+            return [exact(x) for x in [np.ones(N), cl, np.square(cl)][c.wtype]]
+        return [Fraction(1)] * N
+    w = list(c.w) if c.w is not None else default_w()
+    has_grid = c.cls != "net" and c.sub not in ("factory", "recurrence")
     V = c.V                       # None: the attribute does not exist
     V2 = None if c.V is None else second_attr(c.V)      # the second attribute
+    V3 = None                                           # the third: histories only
     # node weights stored on the embedded graph object (None: nothing stored)
     gvw = list(c.w) if (c.ctor == "igraph" and c.w is not None) else None
     if not directed:
         pairs |= set((j, i) for i, j in pairs)
     for op in c.ops:
         kind = op.split(":")[0].split("=")[0]
-        if kind == "ucopy":
+        if kind in ("ucopy", "edgelist", "pcopy", "copy", "saveload", "regraph"):
+            has_grid = False        # these return a plain Network
+        if kind == "rethr":
+            pairs = set(c.sp["edges2"])
+            if not directed:
+                pairs |= set((j, i) for i, j in pairs)
+            w = default_w()
+            V, V2, V3, gvw = None, None, None, None
+        elif kind == "ucopy":
             directed = False
             pairs |= set((j, i) for i, j in pairs)
-            V, V2, gvw = None, None, None
+            V, V2, V3, gvw = None, None, None, None
         elif kind in ("edgelist", "pcopy"):
-            V, V2, gvw = None, None, None
+            V, V2, V3, gvw = None, None, None, None
         elif kind == "copy":
             gvw = None
         elif kind in ("saveload", "loadspatial", "loadgeo", "save"):
@@ -506,10 +636,18 @@ def expected(c):
             V = formula_v(N, directed, *op_args(op))
         elif kind == "delattr":
             V = None
+        elif kind == "setattr2":
+            V2 = formula_v(N, directed, *op_args(op))
+        elif kind == "delattr2":
+            V2 = None
+        elif kind == "setattr3":
+            V3 = formula_v(N, directed, *op_args(op))
+        elif kind == "delattr3":
+            V3 = None
         elif kind == "setadj":
             A2 = formula_a(N, directed, *op_args(op))
             pairs = set((i, j) for i in range(N) for j in range(N) if A2[i][j])
-            V, V2, gvw = None, None, None
+            V, V2, V3, gvw = None, None, None, None
         elif kind == "regraph":
             w = list(gvw) if gvw is not None else [Fraction(1)] * N
     A = [[1 if (i, j) in pairs else 0 for j in range(N)] for i in range(N)]
@@ -530,13 +668,22 @@ def expected(c):
         e["link_attribute"] = None
     else:       # no link: link_attribute(name) is the zero matrix for every name
         e["link_attribute"] = [[Fraction(0)] * N for _ in range(N)]
-    if V2 is not None:
-        e["link_attribute2"] = [[V2[i][j] if A[i][j] else Fraction(0) for j in range(N)]
-                                for i in range(N)]
-    elif pairs:
-        e["link_attribute2"] = None
-    else:
-        e["link_attribute2"] = [[Fraction(0)] * N for _ in range(N)]
+    for key, W in (("link_attribute2", V2), ("link_attribute3", V3)):
+        if W is not None:
+            e[key] = [[W[i][j] if A[i][j] else Fraction(0) for j in range(N)] for i in range(N)]
+        elif pairs:
+            e[key] = None
+        else:
+            e[key] = [[Fraction(0)] * N for _ in range(N)]
+    if has_grid:    # the spatial embedding the network was given (SpatialNetwork / GeoNetwork Load)
+        if c.cls == "geo":
+            e["grid"] = {"lat": [Fraction(x) for x in c.lats],
+                         "lon": [Fraction(i) for i in range(N)], "time": [Fraction(0), Fraction(1)]}
+        else:
+            e["grid"] = {"space": [Fraction(i) for i in range(N)] + [Fraction(0)] * N,
+                         "time": [Fraction(0), Fraction(1)]}
+    if pairs:       # with a link, an attribute exists iff it was set (find_link_attribute)
+        e["find_link_attribute"] = [V is not None, V2 is not None, V3 is not None]
     return e
 
 
@@ -554,9 +701,14 @@ def close(a, b):
 def first_difference(o, e):
     for k in ["N", "directed", "n_links", "link_density", "adjacency", "sp_A", "graph",
               "node_weights", "total_node_weight", "mean_node_weight", "link_attribute",
-              "link_attribute2", "gvw"]:
+              "link_attribute2", "link_attribute3", "gvw"]:
         if k in e and not close(o[k], e[k]):
             return k
+    if "grid" in e:
+        g = o.get("grid")
+        if g is None or sorted(g) != sorted(e["grid"]) or \
+                not all(close(g[k], e["grid"][k]) for k in g):
+            return "grid"
     if o["graph_n"] != o["N"] or o["graph_directed"] != o["directed"]:
         return "graph"
     if o["graph_ecount"] != len(o["graph"]):
@@ -572,7 +724,7 @@ def judge(ctx, c, o, ans, exc):
     fmt = op.split(":")[1] if ":" in op else "-"
     size = "N<=1" if c.N <= 1 else "N>=2"
     base = {"cls": c.cls, "ctor": c.label(), "op": op.split(":")[0].split("=")[0], "format": fmt}
-    rep = {"case": c.describe(), "request": model_request(c)}
+    rep = {"case": c.describe(), "request": model_request(c) if c.model and c.A is not None else None}
     if o is None:
         sig = dict(base, kind="raise", error=ans.split(":")[1], size=size)
         ctx.fail(sig, f"{c.cls} {c.label()} ops={c.ops} N={c.N} edges={len(c.edges)} raised "
@@ -584,6 +736,16 @@ def judge(ctx, c, o, ans, exc):
     # difference is one of the known losses of underscored names)
     if k != "link_attribute2" and not close(o["link_attribute2"], e["link_attribute2"]):
         ks.append("link_attribute2")
+    # find_link_attribute(name) and the names the graph object carries (judged apart from GML,
+    # whose renaming of underscored names is the known finding K3)
+    if fmt != "gml" and not any(op.startswith(("saveload:gml", "loadspatial:gml", "loadgeo:gml"))
+                                for op in c.ops):
+        if k is None and "find_link_attribute" in e and o["find_link_attribute"] != e["find_link_attribute"]:
+            ks.append("find_link_attribute")
+        extra = [a for a in o["link_attribute_names"] if a not in (ATTR, ATTR2, ATTR3)]
+        if extra:
+            o["extra_link_attributes"] = extra
+            ks.append("extra_link_attributes")
     for k in ks:
         sig = dict(base, kind="mismatch", observable=k, size=size)
         ctx.fail(sig, f"{c.cls} {c.label()} ops={c.ops}: {k} = {o.get(k)!r}, the specified "
@@ -676,10 +838,11 @@ def history_ops(rng, first=None):
         elif r < 0.24:
             ops.append("setwnone")
         elif r < 0.40:
-            ops.append("setattr=%d_%d_%d_%d" % (rng.randrange(0, 17), rng.randrange(0, 17),
-                                                rng.randrange(0, 17), rng.choice([0, 0, 0, -35, 35])))
+            ops.append("setattr%s=%d_%d_%d_%d" % (rng.choice(["", "", "2", "3", "3"]),
+                                                  rng.randrange(0, 17), rng.randrange(0, 17),
+                                                  rng.randrange(0, 17), rng.choice([0, 0, 0, -35, 35])))
         elif r < 0.45:
-            ops.append("delattr")
+            ops.append("delattr" + rng.choice(["", "2", "3"]))
         elif r < 0.62:
             ops.append("saveload:" + fm())
         elif r < 0.74:
@@ -790,6 +953,148 @@ def cases_for(rng, N, directed, edges, quick, rich):
     return out
 
 
+def subclass_cases(rng, quick):
+    """ClimateNetwork / CoupledClimateNetwork / RecurrenceNetwork / ResNetwork (their constructors
+    derive a matrix and pass it through GeoNetwork.__init__ / Network.__init__, i.e. the same
+    adjacency setter and weight setter), re-thresholding on the live object, the documented
+    factories and Network.Model — each followed by the usual operations and histories"""
+    out = []
+
+    def var():
+        return dict(wform=rng.choice(["list", "f64", "f32"]), vform=rng.choice(["f64", "f64", "f32"]),
+                    autofmt=rng.random() < 0.25, poke=rng.random() < 0.5)
+
+    def follow(first=None, rethr=False):
+        r = rng.random()
+        if r < 0.25:
+            ops = []
+        elif r < 0.5:
+            ops = [rng.choice(["copy", "ucopy", "edgelist", "pcopy", "regraph",
+                               "saveload:" + rng.choice(FORMATS)])]
+        else:
+            ops = history_ops(rng)
+        if rethr and rng.random() < 0.6:
+            # only while the object still is the subclass instance
+            keep = 0
+            while keep < len(ops) and ops[keep].split(":")[0].split("=")[0] not in (
+                    "copy", "ucopy", "edgelist", "pcopy", "regraph", "saveload"):
+                keep += 1
+            ops.insert(rng.randrange(0, keep + 1), "rethr")
+        return ops
+
+    def sim_matrix(N, directed):
+        # |values| are multiples of 1/8 in [0, 1] (exact in float32), signs mixed: the class
+        # takes the absolute value
+        S = [[Fraction(rng.randrange(0, 9), 8) * rng.choice([1, 1, -1]) for _ in range(N)]
+             for _ in range(N)]
+        for i in range(N):
+            S[i][i] = Fraction(1)
+            if not directed:
+                for j in range(i):
+                    S[i][j] = S[j][i]
+        return S
+
+    def above(S, thr, N):
+        return [(i, j) for i in range(N) for j in range(N) if i != j and abs(S[i][j]) > thr]
+
+    for _ in range(40 if quick else 300):
+        N = rng.randrange(2, 9 if quick else 16)
+        d = rng.random() < 0.35
+        sub = rng.choice(["climate", "climate", "coupled"])
+        S = sim_matrix(N, d)
+        # thresholds on and between the values (strictly above = linked), incl. none / all linked
+        thr, thr2 = (Fraction(rng.randrange(0, 18), 16) for _ in range(2))
+        e1, e2 = above(S, thr, N), above(S, thr2, N)
+        lats = [rng.choice([0.0, 60.0, -60.0, 45.0, 30.0]) for _ in range(N)]
+        w = weights_for(rng, N, "rand") if rng.random() < 0.3 else None
+        V = attr_for(rng, N, d) if rng.random() < 0.5 else None
+        out.append(Case(sub=sub, cls="geo", wtype=rng.choice((0, 1, 1, 2)), lats=lats, N=N,
+                        directed=d, edges=e1 if d else [p for p in e1 if p[0] < p[1]],
+                        A=adjacency_of(N, True, e1), form="thr", w=w, V=V,
+                        sp=dict(S=S, thr=thr, thr2=thr2, edges2=e2, A2=adjacency_of(N, True, e2),
+                                n1=rng.randrange(1, N), sdtype=rng.choice(["float64", "float32"])),
+                        ops=follow(rethr=True), **var()))
+    for _ in range(25 if quick else 200):
+        N = rng.randrange(2, 10 if quick else 20)
+        x = [rng.randrange(0, 12) * rng.choice([1, 1, 4]) for _ in range(N)]
+        thr, thr2 = (Fraction(2 * rng.randrange(0, 8) + 1, 2) for _ in range(2))  # half-integers
+        near = lambda t: [(i, j) for i in range(N) for j in range(N)  # noqa
+                          if i != j and abs(x[i] - x[j]) < t]
+        e1, e2 = near(thr), near(thr2)
+        w = weights_for(rng, N, "rand") if rng.random() < 0.4 else None
+        V = attr_for(rng, N, False) if rng.random() < 0.5 else None
+        out.append(Case(sub="recurrence", cls="net", N=N, directed=False,
+                        edges=[p for p in e1 if p[0] < p[1]], A=adjacency_of(N, True, e1),
+                        form=rng.choice(["supremum", "manhattan", "euclidean"]), w=w, V=V,
+                        sp=dict(series=x, thr=thr, thr2=thr2, edges2=e2, A2=adjacency_of(N, True, e2),
+                                sdtype=rng.choice(["float64", "float32"])),
+                        ops=follow(rethr=True), **var()))
+        out[-1].sp["metric"] = out[-1].form     # scalar series: the three metrics coincide
+    for _ in range(20 if quick else 150):
+        N = rng.randrange(2, 9 if quick else 16)
+        edges = random_graph(rng, N, False, rng.choice(["empty", "single", "sparse", "half", "full",
+                                                        "isolated"]))
+        R = [[Fraction(0)] * N for _ in range(N)]
+        for i, j in edges:      # positive resistances on the links, exact powers of two times quarters
+            R[i][j] = R[j][i] = Fraction(rng.randrange(1, 20), 4) * Fraction(2) ** rng.choice([0, 0, -10, 12])
+        lats = [rng.choice([0.0, 60.0, -60.0, 45.0, 30.0]) for _ in range(N)]
+        out.append(Case(sub="res", cls="geo", wtype=rng.choice((0, 1, 2)), lats=lats, N=N,
+                        directed=False, edges=list(edges), A=adjacency_of(N, False, edges),
+                        form="resistances", w=None, V=attr_for(rng, N, False) if rng.random() < 0.5 else None,
+                        sp=dict(S=R, sdtype=rng.choice(["float64", "float32"])),
+                        ops=follow(), **var()))
+    # Network.Model: the adjacency matrix the generator returns (same seed) is the input
+    import random
+    from pyunicorn.core import Network
+    import scipy.sparse as sps
+    for _ in range(16 if quick else 80):
+        n = rng.randrange(3, 12 if quick else 40)
+        name, kw = rng.choice([
+            ("ErdosRenyi", dict(n_nodes=n, n_links=rng.randrange(0, n * (n - 1) // 2 + 1))),
+            ("ErdosRenyi", dict(n_nodes=n, link_probability=rng.choice([0.0, 0.2, 0.5, 1.0]))),
+            ("BarabasiAlbert", dict(n_nodes=n, n_links_each=rng.randrange(1, 3))),
+            ("BarabasiAlbert_igraph", dict(n_nodes=n, n_links_each=rng.randrange(1, 4))),
+            ("Configuration", dict(degree=[rng.randrange(0, 4) for _ in range(n)]))])
+        if name == "Configuration" and sum(kw["degree"]) % 2:
+            kw["degree"][0] += 1
+        if name == "BarabasiAlbert":
+            kw["n_nodes"] = max(kw["n_nodes"], 2 * kw["n_links_each"] + 2)
+        seed = rng.randrange(10 ** 6)
+        try:
+            with contextlib.redirect_stdout(io.StringIO()):
+                random.seed(seed)
+                np.random.seed(seed)
+                A0 = getattr(Network, name)(**kw)
+        except Exception:  # noqa  (the generator itself refuses the parameters)
+            continue
+        A0 = A0.toarray() if sps.issparse(A0) else np.asarray(A0)
+        N = int(A0.shape[0])
+        edges = [(int(i), int(j)) for i, j in zip(*np.nonzero(A0)) if i < j]
+        out.append(Case(sub="model", cls="net", N=N, directed=False, edges=edges,
+                        A=adjacency_of(N, False, edges), form=name, w=None, V=None,
+                        sp=dict(name=name, kw=kw, seed=seed, n_links=kw.get("n_links")),
+                        ops=follow(), **var()))
+    # documented factories
+    doc_edges = [(0, 3), (0, 4), (0, 5), (1, 2), (1, 3), (1, 4), (2, 4)]
+    doc_w = [Fraction(x, 10) for x in (15, 17, 19, 21, 23, 25)]
+    facts = [("Network.SmallTestNetwork", doc_edges, doc_w),
+             ("Network.SmallDirectedTestNetwork", None, doc_w),
+             ("SpatialNetwork.SmallTestNetwork", None, None),
+             ("GeoNetwork.SmallTestNetwork", None, None),
+             ("InteractingNetworks.SmallTestNetwork", None, None),
+             ("ClimateNetwork.SmallTestNetwork", doc_edges, None),
+             ("ResNetwork.SmallTestNetwork", [(0, 1), (1, 2), (1, 3), (2, 3), (3, 4)], None),
+             ("ResNetwork.SmallComplexNetwork", None, None)]
+    for name, edges, w in facts:
+        for ops in [[], ["copy"], ["saveload:graphml"], ["saveload:pickle"], ["ucopy"], ["edgelist"],
+                    ["pcopy"], ["regraph"], history_ops(rng), history_ops(rng)]:
+            out.append(Case(sub="factory", cls="net", N=0, directed=False, edges=edges or [],
+                            form=name, w=None if w is None else list(w), model=False,
+                            sp=dict(name=name, edges=edges), ops=ops, **{**var(), "vform": "f64"}))
+    return out
+
+
+
 def malformed_cases(rng):
     """inputs outside the property: correspondence only (error behaviour and
     multiplicities of the sparse formats)"""
@@ -858,7 +1163,7 @@ def run(ctx):
                     gs = rng.sample(gs, 64 if quick else 400)
                 specs += [(N, d, g, N <= 2 or rng.random() < (0.15 if quick else 0.3)) for g in gs]
         kinds = ["empty", "single", "sparse", "half", "dense", "full", "isolated"]
-        for _ in range(110 if quick else 1000):
+        for _ in range(110 if quick else 900):
             N = rng.randrange(2, 13 if quick else 31)
             d = rng.random() < 0.5
             specs.append((N, d, random_graph(rng, N, d, rng.choice(kinds)),
@@ -870,6 +1175,7 @@ def run(ctx):
                 cs = [c for c in cs if c.cls == "net" and not (c.ctor == "dense" and c.form == "list")]
             cases += cs
         cases += malformed_cases(rng)
+        cases += subclass_cases(rng, quick)
 
         reqs, answers, results = [], [], []
         for c in cases:
@@ -886,7 +1192,7 @@ def run(ctx):
                              {"case": c.describe(), "observable": k, "before": str(o[k]),
                               "after": str(impl.poked[k])})
             nontriv = c.N >= 2 and len(c.edges) >= 1
-            rq = model_request(c)
+            rq = model_request(c) if c.model else "oracle-only %s %s" % (c.label(), ",".join(c.ops))
             ctx.case(rq, nontriv, {"request": rq[:400]} if c.N <= 4 else None)
             ctx.count(f"cls:{c.cls}")
             ctx.count(f"ctor:{c.label()}")
@@ -902,7 +1208,9 @@ def run(ctx):
             ctx.count("N=%s" % (c.N if c.N <= 4 else ("5-12" if c.N <= 12 else "13-30")))
             ctx.count("links=%s" % (len(c.edges) if len(c.edges) <= 1 else ">1"))
             ctx.count("answer:" + (ans if o is None else "ok"))
-            if corr:
+            if c.sub:
+                ctx.count("sub:" + c.sub)
+            if corr and c.model:
                 reqs.append(rq)
                 answers.append(ans)
         ctx.correspond("Lean Repr model == Network/SpatialNetwork/GeoNetwork objects "
